@@ -129,7 +129,7 @@ func execDecode(o *out, f [][]int) []int {
 		m = &stun.Message{Raw: buf[:len(data):len(buf)]}
 		pan, what = guarded(func() { err = m.Decode() })
 	case 1:
-		// the five copying entry points share one model; they must agree with each other
+		// the copying entry points (and a Message cloned onto itself) share one model; they must agree with each other
 		mk := func() *stun.Message {
 			prev := make([]byte, len(extra))
 			copy(prev, extra)
@@ -144,6 +144,10 @@ func execDecode(o *out, f [][]int) []int {
 			func(mm *stun.Message) error { return mm.UnmarshalBinary(src) },
 			func(mm *stun.Message) error { return mm.GobDecode(src) },
 			func(mm *stun.Message) error { s := &stun.Message{Raw: src}; return s.CloneTo(mm) },
+			func(mm *stun.Message) error { // a Message whose buffer the caller refilled, cloned onto itself
+				mm.Raw = append(mm.Raw[:0], src...)
+				return mm.CloneTo(mm)
+			},
 		}
 		for vi, v := range variants {
 			mm := mk()
@@ -941,7 +945,7 @@ func runC01(o *out, thorough bool, r *rng, _ []string) map[string]interface{} {
 			framed = append([]byte{byte((l + 2) >> 8), byte(l + 2)}, msg...)
 		}
 		for entry := 0; entry <= 2; entry++ {
-			o.run(101, []string{fHex(framed), "-", fNums(entry, 0)}, true)
+			o.run(101, []string{fHex(framed), fHex(make([]byte, len(framed)+r.intn(9))), fNums(entry, 0)}, true)
 		}
 		o.count("kind:framed")
 	}
